@@ -73,6 +73,34 @@ def requests(L, rng, per_fn, catalog=None):
         rq, st_ = L.build(name, *([Zc, Ec] if f['sig'] == 'id' else [Zc, np.array([r_[1] for r_ in rows]), Ec]))
         rq = rq.copy(); rq['i'][:, 5] = [r_[3] for r_ in rows]; rq['d'][:, 9] = 3.0
         add(rq, st_)
+    # energies BETWEEN the ends of an element's Kissel sub-shell tables (the tables of one element do not all end at the same energy: above the shorter
+    # ones a sub-shell contributes nothing, the aggregate is still defined) - every function of (Z, E) and (Z, shell / line, E), every element that has such a gap
+    ks = refdata.kissel(L.config)
+    if ks:
+        rowsZ, rowsE = [], []
+        for Z, dz in sorted(ks.items()):
+            ends = sorted({float(np.exp(v[1][-1, 0])) for v in dz['partial'].values()})
+            for a_, b_ in zip(ends[:-1], ends[1:]):
+                if b_ > a_ * (1 + 1e-9):
+                    for e in (a_ * (1 + 2e-7), (a_ + b_) / 2, b_ * (1 - 1e-9), b_ * (1 + 5e-8)):
+                        rowsZ.append(Z); rowsE.append(e)
+        if rowsZ:
+            Zc, Ec = np.array(rowsZ), np.array(rowsE)
+            for name, f in sorted(L.fns.items()):
+                if f['argnames'][0] != 'Z' or f['argnames'][-1] not in ('E', 'E0'):
+                    continue
+                if f['sig'] == 'id':
+                    add(*L.build(name, Zc, Ec))
+                elif f['sig'] == 'iid':
+                    dom = c16.DOM.get(f['argnames'][1], c16.PDOM)
+                    sel = slice(None, None, 4)
+                    for m in [dom[i] for i in rng.integers(0, len(dom), 3)]:
+                        add(*L.build(name, Zc[sel], np.full(len(Zc[sel]), int(m)), Ec[sel]))
+            syms = ['GaAs', 'CsI', 'PbO', 'Tm2O3', 'YbF3', 'UO2']
+            for name, f in sorted(L.fns.items()):
+                if f['sig'] == 'sd' and name.endswith('_CP'):
+                    es = sorted(set(np.round(Ec, 9).tolist()))[:24]
+                    add(*L.build(name, [s_ for s_ in syms for _ in es], np.array(es * len(syms))))
     # catalogue block, executed in this order by ONE JMon process (the last part): every entry by index, again by index, by name, and
     # through a _CP function. JMon scribbles on every object it is handed, as a caller may: a lookup that hands out the catalogue's own
     # object instead of a copy shows in the later requests
